@@ -6,15 +6,7 @@ CONSTANTS
   BufSizes = {2, 3}
   MCVariants = {"intended", "asbuilt"}
   MCTargets = {"newdir", "existing", "device", "rodir", "rofile", "parentfile", "isdir"}
-  DocOps = {}
-  MdOps = {}
-  Vias = {}
-  GenTargets = {}
-  Plans = {}
-  SweepPoints = 0
-  SweepEdge = 0
-  MaxDoc = 0
-  MaxSaves = 0
+  GroupNames = {}
 INVARIANTS Inv_C05 Inv_FaultReported Inv_NoSpurious Inv_Oracle Inv_Conservation Inv_Limit Inv_EarlySurfaces Inv_Run Inv_AsBuiltNil
 PROPERTIES Act_Final Live_Returns
 CHECK_DEADLOCK FALSE
